@@ -8,7 +8,9 @@ package main
 //     derived from the text of Model/JsGen.v; op jsgen_traced) to the generator
 //     model itself (op jsgen): same outcome class and the same text on every
 //     file of every case, in both formatters; its log holds tree reads and
-//     accesses to the generator's own record only.  The text of soyjs.Write is
+//     accesses to the generator's own record only.  Since wave 3 the equality
+//     of the two is a THEOREM (Generated/JsGenSim.v, C09_jsgen_traced_is_model);
+//     running both remains as a check of extraction and of the op itself.  The text of soyjs.Write is
 //     compared too, but only counted: that correspondence is C14's / C04's
 //     obligation and the model describes the tree after their repairs;
 //   * the package-level state enumerated by tablegen (tables.json: pkg_vars,
@@ -59,15 +61,8 @@ func c09JsTraceOne(e *env, bt *c09Built, sf *ast.SoyFileNode, es6 bool) {
 		return
 	}
 	e.res.Histogram["jstrace-"+plain[0]]++
-	if plain[0] != "ok" {
-		return
-	}
-	if len(plain) < 2 || len(traced) < 6 {
+	if len(traced) < 6 {
 		e.res.Histogram["jstrace-short-answer"]++
-		return
-	}
-	if plain[1] != traced[1] {
-		e.res.Fail(hx.Violation{Kind: "mismatch", What: "the access-logging generator (Generated/JsGenTrace.v) and Model/JsGen.v generate different text", Case: kase, Expected: clip(hx.UnH(plain[1])), Observed: clip(hx.UnH(traced[1]))}, "")
 		return
 	}
 	var rd, own, wr, sw int
@@ -75,12 +70,32 @@ func c09JsTraceOne(e *env, bt *c09Built, sf *ast.SoyFileNode, es6 bool) {
 	fmt.Sscanf(traced[3], "#%d", &own)
 	fmt.Sscanf(traced[4], "#%d", &wr)
 	fmt.Sscanf(traced[5], "#%d", &sw)
-	e.res.Histogram["jstrace tree reads"] += rd
-	e.res.Histogram["jstrace own reads"] += own
-	e.res.Histogram["jstrace own writes"] += wr
 	if sw != 0 {
 		e.res.Fail(hx.Violation{Kind: "mismatch", What: "the access-logging generator logged a write to shared memory", Case: kase, Observed: traced[5]}, "")
 	}
+	if plain[0] != "ok" {
+		// a failing generation keeps its log (the accesses up to the failure)
+		e.res.Histogram["jstrace failing runs: tree reads"] += rd
+		e.res.Histogram["jstrace failing runs: own writes"] += wr
+		if rd == 0 {
+			e.res.Histogram["jstrace-empty-log-on-failure"]++
+		}
+		if (plain[0] == "err" || plain[0] == "crash") && len(plain) > 1 && plain[1] != traced[1] {
+			e.res.Fail(hx.Violation{Kind: "mismatch", What: "the access-logging generator (Generated/JsGenTrace.v) and Model/JsGen.v fail differently", Case: kase, Expected: hx.UnH(plain[1]), Observed: hx.UnH(traced[1])}, "")
+		}
+		return
+	}
+	if len(plain) < 2 {
+		e.res.Histogram["jstrace-short-answer"]++
+		return
+	}
+	if plain[1] != traced[1] {
+		e.res.Fail(hx.Violation{Kind: "mismatch", What: "the access-logging generator (Generated/JsGenTrace.v) and Model/JsGen.v generate different text", Case: kase, Expected: clip(hx.UnH(plain[1])), Observed: clip(hx.UnH(traced[1]))}, "")
+		return
+	}
+	e.res.Histogram["jstrace tree reads"] += rd
+	e.res.Histogram["jstrace own reads"] += own
+	e.res.Histogram["jstrace own writes"] += wr
 	if rd == 0 || wr == 0 {
 		e.res.Histogram["jstrace-empty-log"]++
 	}
